@@ -262,7 +262,7 @@ func canonicalTPSString(r *RNG) string {
 func genC10(c *Ctx) {
 	r := c.R
 	// (a) shared position sources
-	n := c.Scale(16000, 1600000)
+	n := c.Scale(9000, 1600000)
 	for k := 0; k < n; k++ {
 		emitTPSPos(c, randomPosition(r), "random")
 	}
@@ -318,7 +318,7 @@ func genC10(c *Ctx) {
 		}
 	}
 	// (d) canonical strings drawn from the grammar: parse, and format(parse s) = s
-	n = c.Scale(16000, 1600000)
+	n = c.Scale(10000, 1600000)
 	for k := 0; k < n; k++ {
 		s := canonicalTPSString(r)
 		c.Count("src.canonical")
@@ -327,7 +327,7 @@ func genC10(c *Ctx) {
 		c.Count("canon=" + strings.Fields(out + " x")[0])
 	}
 	// (e) mutated strings (shared with C13)
-	n = c.Scale(16000, 1600000)
+	n = c.Scale(12000, 1600000)
 	for k := 0; k < n; k++ {
 		var s string
 		if r.Chance(1, 2) {
